@@ -1239,3 +1239,257 @@ Lemma decode_yaml_orig_refuted :
             /\ decode_yaml_orig t yw_garbage = Some 0 /\ decode_yaml_orig t yw_seven = None
             /\ decode_yaml t yw_garbage = None /\ decode_yaml t yw_seven = Some 1.
 Proof. eexists. split; [vm_compute; reflexivity|]. vm_compute. repeat split. Qed.
+
+(* ================================================================== Part 5: traits (C12) *)
+
+(* ---- what gen guarantees about the columns *)
+Definition cols_owned (vs : list gvalue) (cols : list column) : Prop :=
+  forall c r, In c cols -> In r (col_rows c) -> In (r_owner r) vs.
+
+Lemma first_columns_owned : forall d o first cells cols vs,
+  In first vs -> first_columns d o first cells = Built cols -> cols_owned vs cols.
+Proof.
+  intros d o first cells. induction cells as [|cl rest IH]; intros cols vs Hf H; simpl in H.
+  - inversion H; subst. intros c r [].
+  - destruct (String.eqb (cl_var cl) "_"); [discriminate|].
+    destruct (String.eqb (trim_underscore (cl_var cl)) "" || String.eqb (trim_underscore (cl_var cl)) "_"); [discriminate|].
+    destruct (lookup (dty (cl_val cl)) (d_types d)) as [info|]; [|discriminate].
+    destruct (first_columns d o first rest) as [cols'| | |] eqn:E; try discriminate.
+    inversion H; subst. intros c r [<-|Hc] Hr.
+    + simpl in Hr. destruct Hr as [<-|[]]. assumption.
+    + eapply IH; eauto.
+Qed.
+
+Lemma later_rows_owner : forall rest j r, In r (later_rows rest j) -> In (r_owner r) rest.
+Proof.
+  intros rest j r H. unfold later_rows in H. apply in_flat_map in H. destruct H as [v [Hv Hr]].
+  destruct (nth_error (g_cells v) j); [|contradiction]. destruct Hr as [<-|[]]. assumption.
+Qed.
+
+Lemma add_rows_owned : forall rest cols j vs,
+  (forall v, In v rest -> In v vs) -> cols_owned vs cols -> cols_owned vs (add_rows rest j cols).
+Proof.
+  intros rest cols. induction cols as [|c cs IH]; intros j vs Hsub H; simpl.
+  - intros c r [].
+  - intros c' r [<-|Hc] Hr.
+    + simpl in Hr. apply in_app_or in Hr. destruct Hr as [Hr|Hr].
+      * apply (H c r); [left; reflexivity|assumption].
+      * apply Hsub. eapply later_rows_owner; eauto.
+    + eapply IH; eauto. intros c0 r0 Hc0 Hr0. apply (H c0 r0); [right; assumption|assumption].
+Qed.
+
+Lemma drop_dup_owned : forall b vs0 vs cols, cols_owned vs cols -> cols_owned vs (drop_dup_rows_gen b vs0 cols).
+Proof.
+  intros b vs0 vs cols H c r Hc Hr. unfold drop_dup_rows_gen in Hc. apply in_map_iff in Hc.
+  destruct Hc as [c0 [<- Hc0]]. simpl in Hr. apply filter_In in Hr. destruct Hr as [Hr _].
+  apply (H c0 r); assumption.
+Qed.
+
+Lemma sort_columns_owned : forall vs cols, cols_owned vs cols -> cols_owned vs (sort_columns cols).
+Proof.
+  intros vs cols H c r Hc Hr. unfold sort_columns in Hc. apply isort_in in Hc. apply (H c r); assumption.
+Qed.
+
+Lemma gen_cols_owned : forall d o t, gen d o = Built t -> cols_owned (t_all t) (t_cols t).
+Proof.
+  intros d o t H. unfold gen in H.
+  assert (Hmk : forall vs cols, mk_tables d o vs cols = Built t -> cols_owned vs cols ->
+                                cols_owned (t_all t) (t_cols t)).
+  { intros vs cols Hm Ho. apply mk_tables_built in Hm. destruct Hm as [_ ->]. exact Ho. }
+  destruct (sort_values (d_consts d)) as [|first rest] eqn:Es; [discriminate|].
+  assert (Hnil : cols_owned (first :: rest) []) by (intros c r []).
+  destruct (o_notraits o); [apply (Hmk _ _ H Hnil)|].
+  destruct (first_columns d o first (g_cells first)) as [cols0| | |] eqn:Ef; try discriminate.
+  destruct (Nat.eqb (length cols0) 0).
+  - destruct (forallb _ _); [apply (Hmk _ _ H Hnil)|discriminate].
+  - destruct (negb (validate_counts (first :: rest) (length cols0))); [discriminate|].
+    destruct (existsb _ rest); [discriminate|].
+    destruct (negb (validate_parsable _)); [discriminate|]. apply (Hmk _ _ H).
+    apply sort_columns_owned. apply drop_dup_owned. apply add_rows_owned.
+    + intros v Hv. right. assumption.
+    + eapply first_columns_owned; [|exact Ef]. left. reflexivity.
+Qed.
+
+Section Traits.
+  Variable d : defn.
+  Variable o : opts.
+  Variable t : tables.
+  Hypothesis Hwf : wf_defn d.
+  Hypothesis Hgen : gen d o = Built t.
+
+  Let cs := d_consts d.
+  Let L := sort_values cs.
+
+  Lemma rows_owner_in_L : forall c r, In c (t_cols t) -> In r (col_rows c) -> In (r_owner r) L.
+  Proof.
+    intros c r Hc Hr. pose proof (gen_cols_owned d o t Hgen c r Hc Hr) as H.
+    rewrite (B_all d o t Hgen) in H. exact H.
+  Qed.
+
+  Lemma z_nodupb_NoDup : forall l, z_nodupb l = true -> NoDup l.
+  Proof.
+    induction l as [|x r IH]; simpl; intros H; [constructor|].
+    apply andb_true_iff in H. destruct H as [Hn Hr]. apply negb_true_iff in Hn.
+    constructor; [|apply IH; assumption]. intro Hin.
+    assert (E : existsb (Z.eqb x) r = true) by (apply existsb_exists; exists x; split; [assumption|apply Z.eqb_refl]).
+    congruence.
+  Qed.
+
+  Lemma rows_values_NoDup : forall c, In c (t_cols t) -> NoDup (map (fun r => g_z (r_owner r)) (col_rows c)).
+  Proof.
+    intros c Hc. pose proof (B_build d o t Hgen) as Hb. unfold build_ok in Hb.
+    apply andb_true_iff in Hb. destruct Hb as [Hb _]. apply andb_true_iff in Hb. destruct Hb as [Hb _].
+    apply andb_true_iff in Hb. destruct Hb as [Hb _]. rewrite forallb_forall in Hb.
+    apply z_nodupb_NoDup. apply Hb. assumption.
+  Qed.
+
+  (* accessor, table level: the cell of the (unique) row owned by the value, else the zero value *)
+  Lemma accessor_row : forall c r, In c (t_cols t) -> In r (col_rows c) ->
+    sem_accessor c (g_z (r_owner r)) = dval (cl_val (r_cell r)).
+  Proof.
+    intros c r Hc Hr. unfold sem_accessor.
+    destruct (find (fun r0 => g_z (r_owner r0) =? g_z (r_owner r)) (col_rows c)) as [r'|] eqn:F.
+    - apply find_some in F. destruct F as [Hin' Hz]. apply Z.eqb_eq in Hz.
+      assert (E : r' = r).
+      { apply (NoDup_map_inj_in (fun r0 => g_z (r_owner r0)) (col_rows c)); try assumption.
+        apply rows_values_NoDup. assumption. }
+      rewrite E. reflexivity.
+    - pose proof (find_none _ _ F r Hr) as Hn. simpl in Hn. rewrite Z.eqb_refl in Hn. discriminate.
+  Qed.
+
+  Lemma accessor_zero : forall c e, (forall r, In r (col_rows c) -> g_z (r_owner r) <> e) ->
+    sem_accessor c e = zero_payload (ti_bkind (col_info c)).
+  Proof.
+    intros c e H. unfold sem_accessor. rewrite find_all_false; [reflexivity|].
+    intros r Hr. apply Z.eqb_neq. apply H. assumption.
+  Qed.
+
+  (* Parse<T> of a parsable trait constant returns the owning value *)
+  Lemma parse_trait_row : forall c r, In c (t_cols t) -> col_parsable c = true -> In r (col_rows c) ->
+    sem_parse t (cl_val (r_cell r)) = Some (g_z (r_owner r)).
+  Proof.
+    intros c r Hc Hp Hr. unfold sem_parse. rewrite (B_all d o t Hgen). fold cs. fold L.
+    set (x := cl_val (r_cell r)).
+    assert (Hown : In x (case_consts (t_cols t) (r_owner r))).
+    { unfold case_consts. right. apply in_flat_map. exists c. split; [assumption|]. rewrite Hp.
+      unfold owned_cells. apply in_map_iff. exists r. split; [reflexivity|].
+      apply filter_In. split; [assumption|apply String.eqb_refl]. }
+    set (f := fun g => existsb (dyn_eqb x) (case_consts (t_cols t) g)).
+    assert (Hf0 : f (r_owner r) = true) by (unfold f; apply (existsb_dyn_In x); assumption).
+    destruct (find_exists f L _ (rows_owner_in_L c r Hc Hr) Hf0) as [g' F]. rewrite F.
+    apply find_some in F. destruct F as [Hin' Hf']. unfold f in Hf'. apply existsb_dyn_In in Hf'.
+    assert (E : g' = r_owner r).
+    { apply (NoDup_flat_map_unique (case_consts (t_cols t)) L g' (r_owner r) x).
+      - apply (L_NoDup d Hwf).
+      - apply (cases_NoDup d o t Hgen).
+      - assumption.
+      - apply (rows_owner_in_L c r Hc Hr).
+      - assumption.
+      - assumption. }
+    rewrite E. reflexivity.
+  Qed.
+
+  (* a decoder returns v as soon as one of its attempts parses to v and no attempt parses to
+     anything else (documents with two readings of different values are ambiguous) *)
+  Lemma try_all_unique : forall l x v, In x l -> sem_parse t x = Some v ->
+    (forall y w, In y l -> sem_parse t y = Some w -> w = v) -> try_all t l = Some v.
+  Proof.
+    induction l as [|a r IH]; intros x v Hin Hx Hu; [contradiction|]. simpl.
+    destruct (sem_parse t a) as [w|] eqn:Ea.
+    - f_equal. apply (Hu a w); [left; reflexivity|assumption].
+    - destruct Hin as [->|Hin]; [congruence|]. eapply IH; eauto.
+      intros y w Hy Hw. apply (Hu y w); [right; assumption|assumption].
+  Qed.
+
+  Definition unambiguous (l : list dyn) (v : Z) : Prop :=
+    forall y w, In y l -> sem_parse t y = Some w -> w = v.
+
+  (* which readings the decoders try for a trait column *)
+  Lemma json_tries_string : forall c jv s, In c (family t KString ti_json_own) -> jv_string jv = Some s ->
+    In (typed c (PStr s)) (json_attempts t jv).
+  Proof.
+    intros c jv s Hc Hs. unfold json_attempts. rewrite Hs. apply in_or_app. left. right.
+    apply in_map_iff. exists c. split; [reflexivity|assumption].
+  Qed.
+  Lemma json_tries_uint : forall c jv u, In c (family t KUint64 ti_json_own) -> jv_u64 jv = Some u ->
+    In (typed_int c u) (json_attempts t jv).
+  Proof.
+    intros c jv u Hc Hu. unfold json_attempts. rewrite Hu. apply in_or_app. right. apply in_or_app. left.
+    apply in_map_iff. exists c. split; [reflexivity|assumption].
+  Qed.
+  Lemma json_tries_int : forall c jv i, In c (family t KInt64 ti_json_own) -> jv_i64 jv = Some i ->
+    In (typed_int c i) (json_attempts t jv).
+  Proof.
+    intros c jv i Hc Hi. unfold json_attempts. rewrite Hi. apply in_or_app. right. apply in_or_app. right.
+    apply in_or_app. left. apply in_map_iff. exists c. split; [reflexivity|assumption].
+  Qed.
+  Lemma native_tries : forall cols nat_view c p, In c cols -> lookup (col_type c) nat_view = Some (Some p) ->
+    In (typed c p) (native_attempts cols nat_view).
+  Proof.
+    intros cols nat_view c p Hc Hl. unfold native_attempts. apply in_flat_map. exists c. split; [assumption|].
+    rewrite Hl. left. reflexivity.
+  Qed.
+  Lemma json_tries_native : forall c jv p, In c (family_own t ti_json_own) ->
+    lookup (col_type c) (jv_native jv) = Some (Some p) -> In (typed c p) (json_attempts t jv).
+  Proof.
+    intros c jv p Hc Hl. unfold json_attempts. apply in_or_app. right. apply in_or_app. right.
+    apply in_or_app. right. apply native_tries; assumption.
+  Qed.
+  Lemma yaml_tries_string : forall c yv, In c (family t KString ti_yaml_own) ->
+    In (typed c (PStr (yv_value yv))) (yaml_attempts_gen true t yv).
+  Proof.
+    intros c yv Hc. unfold yaml_attempts_gen. right. apply in_or_app. left. apply in_map_iff. exists c. split; [reflexivity|assumption].
+  Qed.
+  Lemma yaml_tries_uint : forall c yv u, In c (family t KUint64 ti_yaml_own) -> yv_u64 yv = Some u ->
+    In (typed_int c u) (yaml_attempts_gen true t yv).
+  Proof.
+    intros c yv u Hc Hu. unfold yaml_attempts_gen. rewrite Hu. right. apply in_or_app. right.
+    apply in_or_app. left. apply in_map_iff. exists c. split; [reflexivity|assumption].
+  Qed.
+  Lemma yaml_tries_int : forall c yv i, In c (family t KInt64 ti_yaml_own) -> yv_i64 yv = Some i ->
+    In (typed_int c i) (yaml_attempts_gen true t yv).
+  Proof.
+    intros c yv i Hc Hi. unfold yaml_attempts_gen. rewrite Hi. right. apply in_or_app. right.
+    apply in_or_app. right. apply in_or_app. left. apply in_map_iff. exists c. split; [reflexivity|assumption].
+  Qed.
+  Lemma yaml_tries_native : forall c yv p, In c (family_own t ti_yaml_own) ->
+    lookup (col_type c) (yv_native yv) = Some (Some p) -> In (typed c p) (yaml_attempts_gen true t yv).
+  Proof.
+    intros c yv p Hc Hl. unfold yaml_attempts_gen. right. apply in_or_app. right. apply in_or_app. right.
+    apply in_or_app. right. apply native_tries; assumption.
+  Qed.
+  Lemma text_tries_string : forall c tv, In c (family t KString ti_text_own) ->
+    In (typed c (PStr (tv_text tv))) (text_attempts t tv).
+  Proof.
+    intros c tv Hc. unfold text_attempts. right. apply in_or_app. left. apply in_map_iff. exists c. split; [reflexivity|assumption].
+  Qed.
+  Lemma text_tries_native : forall c tv p, In c (family_own t ti_text_own) ->
+    lookup (col_type c) (tv_native tv) = Some (Some p) -> In (typed c p) (text_attempts t tv).
+  Proof.
+    intros c tv p Hc Hl. unfold text_attempts. right. apply in_or_app. right. apply native_tries; assumption.
+  Qed.
+
+  (* decoding a document that holds the trait constant of row r (as one of the readings the
+     decoder tries) returns the owning value *)
+  Lemma decode_trait_json : forall c r jv, In c (t_cols t) -> col_parsable c = true -> In r (col_rows c) ->
+    In (cl_val (r_cell r)) (json_attempts t jv) -> unambiguous (json_attempts t jv) (g_z (r_owner r)) ->
+    decode_json t jv = Some (g_z (r_owner r)).
+  Proof.
+    intros c r jv Hc Hp Hr Hin Hu. unfold decode_json.
+    eapply try_all_unique; [exact Hin|apply (parse_trait_row c r Hc Hp Hr)|exact Hu].
+  Qed.
+  Lemma decode_trait_yaml : forall c r yv, In c (t_cols t) -> col_parsable c = true -> In r (col_rows c) ->
+    In (cl_val (r_cell r)) (yaml_attempts_gen true t yv) -> unambiguous (yaml_attempts_gen true t yv) (g_z (r_owner r)) ->
+    decode_yaml t yv = Some (g_z (r_owner r)).
+  Proof.
+    intros c r yv Hc Hp Hr Hin Hu. unfold decode_yaml.
+    eapply try_all_unique; [exact Hin|apply (parse_trait_row c r Hc Hp Hr)|exact Hu].
+  Qed.
+  Lemma decode_trait_text : forall c r tv, In c (t_cols t) -> col_parsable c = true -> In r (col_rows c) ->
+    In (cl_val (r_cell r)) (text_attempts t tv) -> unambiguous (text_attempts t tv) (g_z (r_owner r)) ->
+    decode_text t tv = Some (g_z (r_owner r)).
+  Proof.
+    intros c r tv Hc Hp Hr Hin Hu. unfold decode_text.
+    eapply try_all_unique; [exact Hin|apply (parse_trait_row c r Hc Hp Hr)|exact Hu].
+  Qed.
+End Traits.
